@@ -317,6 +317,20 @@ def phase_mc(tier):
     return jobs
 
 
+def package_mc(tier):
+    """exhaustive TLC runs of the Package controller's unpack / deploy / record cycle (spec/PKOPackage.tla, one action per API call)"""
+    q = tier == 'quick'
+    c = dict(Specs='MCSpecs', Class='MCClass', Atomic='FALSE', MaxEdit=3 if q else 4, MaxFault=2 if q else 3, MaxTouch=1)
+    safety = ['TypeOK', 'Inv_C16_NoDeployUnlessAdmissible', 'Inv_C09_PackagePaused', 'Inv_C16_NoRepull', 'Inv_C16_RecordJustified']
+    return [dict(name='package-asfound', kind='gen', module='MC_PKOPackage', constants=c, invariants=safety, timeout=3000),
+            # deploy + record as one step: everything holds, incl. TemplateIsRender and convergence under fairness
+            dict(name='package-atomic', kind='gen', module='MC_PKOPackage', spec='FairSpec', constants=dict(c, Atomic='TRUE'),
+                 invariants=safety + ['Inv_C16_TemplateIsRender'], props=['Live_C16_Converges'], timeout=3000),
+            # negative control: the known finding C16 (template deployed, record fails, spec reverted) at the design level
+            dict(name='package-asfound-negctl', kind='gen', module='MC_PKOPackage', constants=c, invariants=['Inv_C16_TemplateIsRender'],
+                 expect_violation='Inv_C16_TemplateIsRender')]
+
+
 LIVE = ['Live_C10_ObjectsRepaired', 'Live_C10_Quiescent', 'Live_C10_TeardownCompletes']
 
 
@@ -417,7 +431,7 @@ CHECKS = {
                 level_text='Every abstract package (all subsets of the file pool exhaustively, document attributes seeded) is concretised into real package files and rendered repeatedly through the real structural loader, RenderPackageInstance, RenderObjectSetTemplateSpec and FNV hash; TLC compares the outcome with the TLA+ function Render!Expected, checks determinism and the template function allow list.',
                 jobs=lambda tier, seed: [dict(name='render-table', module='TraceRender', shards=8 if tier == 'quick' else 14,
                                               driver=['render-table', '-n', '300' if tier == 'quick' else '20000', '-steps', '12' if tier == 'quick' else '60', '-seed', str(seed)])]),
-    'C16': dict(level='model_checking', invariants=INV['C16'], assumptions=ASSUME + [
+    'C16': dict(level='model_checking', invariants=INV['C16'], mc=package_mc, assumptions=ASSUME + [
         'the registry is scripted (fixture packages per image reference); loader, validators, renderer, deployer and chunker are the real code',
         'reference render for Inv_C16_TemplateIsRender = the same pipeline invoked directly on the current spec in a fault-free call'],
         jobs=lambda tier, seed: [
@@ -488,7 +502,7 @@ TECHNIQUES = {
     'C13': 'TLA+ model-based: rendering specified as a pure function (spec/Render.tla); abstract packages concretised and rendered repeatedly by the real pipeline; TLC (spec/TraceRender.tla) compares every outcome with Expected(p)',
     'C14': 'TLA+ model-based: exhaustive TLC check of spec/PKODeploy.tla (deployer with slices and slice GC; design-level reproduction of the known GC race as negative control); differential sliced-vs-inline runs and package update histories on the real controllers; ' + TV,
     'C15': 'TLA+ model-based: exhaustive TLC check (safety + liveness) of the delegated-phase protocol model spec/PKOPhase.tla (decision function spec/RemotePhase.tla); differential delegated-vs-local runs and seeded schedules of the real ObjectSet / ObjectSetPhase controllers; ' + TV + ' (C01-C06, C09 invariants on delegated scenarios)',
-    'C16': 'TLA+ model-based: seeded histories of Package edits, faults and conflicts on the real Package controller + deployer; ' + TV + ' (reference render = the same pipeline called directly)',
+    'C16': 'TLA+ model-based: exhaustive TLC check of the Package controller model spec/PKOPackage.tla (unpack / deploy / record per API call; the known finding as negative control, the atomic variant incl. liveness); seeded histories of Package edits, faults and conflicts on the real Package controller + deployer; ' + TV + ' (reference render = the same pipeline called directly)',
     'C17': 'TLA+ model-based: probing specified as a function of abstract (probe list, object) rows (spec/Probing.tla); rows concretised and run through the real parser and probes; TLC (spec/TraceProbing.tla) compares verdict and messages',
     'C18': 'TLA+ model-based: seeded histories on the real ObjectTemplate controller with reconciles triggered through the real EnqueueWatchingObjects handler and RequeueAfter timers; ' + TV,
     'C19': 'TLA+ model-based (reduced scope): the domain of input shape classes is declared in spec/Shapes.tla; every row is run through its real entry point (recover + watchdog, recursion rows in child processes); TLC (spec/TraceShapes.tla) checks no row panics / hangs and the domain is covered',
